@@ -141,6 +141,11 @@ func c12Workload(c *Ctx, fam *report.Family, r *rng.R, nCfg, rounds int) error {
 		if k == 0 {
 			y = isoDenseConfigYAML(tree, scripts)
 		}
+		if k == 1 {
+			// no override block but for deb: the other formats are handed the settings without a merge (maps and slices
+			// of the configuration itself if Get ever stops copying), while Get("deb") walks the configuration
+			y = isoPlainConfigYAML(tree, scripts) + "overrides:\n  deb:\n    depends: [only-deb]\n"
+		}
 		isoCountFeatures(fam, y)
 		key := isoKey(y)
 		for round := 0; round < rounds; round++ {
@@ -309,6 +314,8 @@ func runC12Plain(c *Ctx) error {
 var c12Fatal = regexp.MustCompile(`(?m)^(fatal error: .*|panic: .*)$`)
 
 func runC12(c *Ctx) error {
+	// (0) the command as concurrent processes
+	c12ConcurrentCLI(c)
 	// (1) without the race detector, in a child process of this very binary
 	fam := c.Rep.Family("concurrent-equals-sequential", "in a child process of the harness (no race detector; a fatal runtime error of the child - concurrent map access, say - is a finding with the child's seed as replay): generated configurations x rounds; variant A: the five formats concurrently from one parsed configuration (each goroutine its own Get/WithDefaults/Package); variant B: 2..4 goroutines, each parsing its own configuration and packaging all formats; random start offsets 0..300us, GOMAXPROCS in {2,4,16}; every result byte-compared with the result of five sequential packagings of a freshly parsed configuration; plus signed deb (debsign, dpkg-sig) and rpm packages with three keys / key ids from 8 goroutines (compared on success and on the issuer key id of every signature - signatures are not byte-reproducible); plus one 3 MiB file packaged in all formats from 8 goroutines under GOMAXPROCS 4 and 2 (byte-compared); non-trivial = every compared package")
 	{
